@@ -142,6 +142,19 @@ def _trip(kind, form):
         return Table(m, ['a', 'b', 'b'], ['x', 'y'])
     if kind == 'sampsize':
         return Table(m, ['a', 'b'], ['x', 'y', 'y'])
+    if kind in ('obsdup', 'sampdup') and form == 2:
+        # the filter call site: an offending table (built inside a nested,
+        # properly scoped 'ignore' block) is filtered in place under the
+        # program's current profile
+        from biom.err import errstate
+        with errstate(all='ignore'):
+            if kind == 'obsdup':
+                t = Table(m, ['a', 'a'], ['x', 'y'])
+            else:
+                t = Table(m, ['a', 'b'], ['x', 'x'])
+        return t.filter(lambda v, i, md: True,
+                        axis='sample' if kind == 'obsdup' else 'observation',
+                        inplace=True)
     if kind == 'obsdup':
         if form == 1:
             t = Table(m, ['a', 'b'], ['x', 'y'])
@@ -154,10 +167,12 @@ def _trip(kind, form):
             return t.update_ids({'x': 'y'}, axis='sample', strict=False,
                                 inplace=False)
         return Table(m, ['a', 'b'], ['x', 'x'])
+    # metadata too short (1 entry), empty (no entry at all) or too long
+    bad_md = [[{'k': 1}], [], [{'k': 1}, {'k': 2}, {'k': 3}]][form % 3]
     if kind == 'obsmdsize':
-        return Table(m, ['a', 'b'], ['x', 'y'], [{'k': 1}])
+        return Table(m, ['a', 'b'], ['x', 'y'], bad_md)
     if kind == 'sampmdsize':
-        return Table(m, ['a', 'b'], ['x', 'y'], None, [{'k': 1}])
+        return Table(m, ['a', 'b'], ['x', 'y'], None, bad_md)
     raise ValueError(kind)
 
 
